@@ -37,6 +37,7 @@ type Prog struct {
 	Canon    int                      /* Operations rewritten to their canonical spelling. */
 	merged   map[string]*ssa.Function /* reference name → the function its body was written into */
 	renamed  map[string]*ssa.Function /* reference name → the function which took its place */
+	Lowered  int
 	Promoted int                      /* Functions whose struct parameters were replaced by their fields. */
 	Unrolled int                      /* Functions in which a loop over a literal table was unrolled. */
 	Devirt   int                      /* Interface calls resolved to the one implementing type. */
@@ -299,7 +300,12 @@ var foldedRefFuncs = map[string]bool{
 
 // flatten folds helpers into their callers and hides the helpers which are no
 // longer referenced.
+// theProg is the program being judged (for helpers which have no other way
+// to ask about package-level variables).
+var theProg *Prog
+
 func (p *Prog) flatten() {
+	theProg = p
 	var tops []*ssa.Function
 	for _, f := range p.funcs {
 		if nil == f.Parent() {
@@ -363,6 +369,16 @@ func (p *Prog) flatten() {
 	for _, f := range tops {
 		ssa.CutNoReturn(f, func(c *ssa.Call) bool { return isNoReturn(c) })
 	}
+	/* "defer func() { if nil != err { undo() } }()" over a named result is
+	the undo on the error returns. */
+	for _, f := range tops {
+		if ssa.LowerResultDefers(f) {
+			p.Lowered++
+			if "" != os.Getenv("CRS_FLATDEBUG") {
+				fmt.Fprintf(os.Stderr, "LOWERED result defer in %s\n", f)
+			}
+		}
+	}
 	p.Flat = ssa.FlattenAll(tops, isHelper)
 	/* Variables kept in memory only because a function literal reads them
 	(or did, before it was folded in) become values. */
@@ -421,6 +437,9 @@ func (p *Prog) flatten() {
 		if !isHelper(f) && nil == f.Parent() {
 			ssa.Relift(f)
 			ssa.FoldConstOps(f)
+			/* "a && b" computed as a value only to be branched on (the
+			cases of a tagless switch) becomes the two branches. */
+			ssa.ThreadBoolPhis(f)
 		}
 	}
 	/* Which helpers are still referenced from non-helper code? */
